@@ -215,7 +215,7 @@ fn run_dp(cap: Option<usize>, items: &str) -> String {
                 break;
             }
             now = now + profirust::time::Duration::from_millis(1);
-            let mut txbuf = [0u8; 256];
+            let mut txbuf = [0xA5u8; 256];
             let res = master.transmit_telegram(now, &fdl_station, fdl::TelegramTx::new(&mut txbuf), fdl::HighPrioOnly::No);
             if res.is_none() {
                 continue;
